@@ -148,6 +148,17 @@ def _binning_loops(ctx):
     return f, outer[0], inner[0]
 
 
+def _cursor_name(f, outer):
+    """the local that walks along the region: initialised from the region start before the outer loop and set to the end of the blacklisted
+    interval in the loop (whatever it is called)"""
+    bl_start, bl_end = _pair_target(outer)
+    first = f.args.args[0].arg
+    init = {s_.targets[0].id for s_ in f.body if isinstance(s_, ast.Assign) and len(s_.targets) == 1 and isinstance(s_.targets[0], ast.Name) and src(s_.value) == first}
+    adv = {s_.targets[0].id for s_ in walk_no_nested(outer) if isinstance(s_, ast.Assign) and len(s_.targets) == 1 and isinstance(s_.targets[0], ast.Name) and src(s_.value) == bl_end}
+    both = sorted(init & adv)
+    return both[0] if len(both) == 1 else 'current'
+
+
 def _pair_target(loop):
     """the (start, end) pair a loop binds: target `(a, b)` or `(i, (a, b))` (with or without an enumerate index)"""
     t = loop.target
@@ -250,7 +261,7 @@ def window_analysis(ctx):
     gap_lo_names = used - {ps, pe, frag, bl_start, bl_end, fi, 'min', 'max'}
     c17, exact = [], []
     witness = None
-    cur = 'current'
+    cur = _cursor_name(f, outer)
     lo_name = None
     lo_mode = 'gap'       # 'gap': provably the gap start; 'cur': `current` itself (gap start for the first bin, bin start afterwards); 'free': unknown
     if len(gap_lo_names) == 1:
@@ -391,8 +402,9 @@ def r3(ctx):
     tb = tbs[0] if len(tbs) == 1 else None
     lb = lbs[0] if len(lbs) == 1 else None
     bl_start = _pair_target(outer)[0]
-    ok = tb is not None and lb is not None and 'fill_range(current, ' + bl_start + ', bin_size)' in src(tb.value) and \
-        src(lb.value).replace(' ', '') in (f'int(({bl_start}-current)/total_bins)', f'({bl_start}-current)//total_bins')
+    cur = _cursor_name(f, outer)
+    ok = tb is not None and lb is not None and f'fill_range({cur}, ' + bl_start + ', bin_size)' in src(tb.value) and \
+        src(lb.value).replace(' ', '') in (f'int(({bl_start}-{cur})/total_bins)', f'({bl_start}-{cur})//total_bins')
     okuse = 'local_bin_size' in src(inner.iter)
     ctx.emit('C17-R3', ok and okuse, BINCOUNTS, lb if lb is not None else outer, f'equalised bin size `{src(lb.value) if lb is not None else None}` with total_bins = `{src(tb.value) if tb is not None else None}` is used by the bin loop',
              key='local-bin-size')
